@@ -66,6 +66,62 @@ impl<'a, T> ViaNoSlice for &Wrap<'a, T> {
     }
 }
 
+// ---- Borrow<[Tok]>, Deref<Target = [Tok]>, AsMut<[Tok]> ----
+pub trait ViaBorrow {
+    fn try_borrow_probe(&self) -> Option<Vec<(u32, u32)>>;
+}
+impl<'a, T: std::borrow::Borrow<[Tok]>> ViaBorrow for Wrap<'a, T> {
+    fn try_borrow_probe(&self) -> Option<Vec<(u32, u32)>> {
+        Some(self.0.borrow().iter().map(|t| (t.id, t.val)).collect())
+    }
+}
+pub trait ViaNoBorrow {
+    fn try_borrow_probe(&self) -> Option<Vec<(u32, u32)>>;
+}
+impl<'a, T> ViaNoBorrow for &Wrap<'a, T> {
+    fn try_borrow_probe(&self) -> Option<Vec<(u32, u32)>> {
+        None
+    }
+}
+pub trait ViaDeref {
+    fn try_deref_probe(&self) -> Option<Vec<(u32, u32)>>;
+}
+impl<'a, T: std::ops::Deref<Target = [Tok]>> ViaDeref for Wrap<'a, T> {
+    fn try_deref_probe(&self) -> Option<Vec<(u32, u32)>> {
+        Some(self.0.deref().iter().map(|t| (t.id, t.val)).collect())
+    }
+}
+pub trait ViaNoDeref {
+    fn try_deref_probe(&self) -> Option<Vec<(u32, u32)>>;
+}
+impl<'a, T> ViaNoDeref for &Wrap<'a, T> {
+    fn try_deref_probe(&self) -> Option<Vec<(u32, u32)>> {
+        None
+    }
+}
+pub struct WrapMut<'a, T>(pub std::cell::RefCell<&'a mut T>);
+pub trait ViaAsMut {
+    /// reverses the mutable view in place and returns what it showed before
+    fn try_asmut_probe(&self) -> Option<Vec<(u32, u32)>>;
+}
+impl<'a, T: AsMut<[Tok]>> ViaAsMut for WrapMut<'a, T> {
+    fn try_asmut_probe(&self) -> Option<Vec<(u32, u32)>> {
+        let mut b = self.0.borrow_mut();
+        let s: &mut [Tok] = b.as_mut();
+        let before = s.iter().map(|t| (t.id, t.val)).collect();
+        s.reverse();
+        Some(before)
+    }
+}
+pub trait ViaNoAsMut {
+    fn try_asmut_probe(&self) -> Option<Vec<(u32, u32)>>;
+}
+impl<'a, T> ViaNoAsMut for &WrapMut<'a, T> {
+    fn try_asmut_probe(&self) -> Option<Vec<(u32, u32)>> {
+        None
+    }
+}
+
 // ---- Default ----
 pub struct WrapTy<T>(pub std::marker::PhantomData<T>);
 pub trait ViaDefault<T> {
@@ -165,6 +221,41 @@ pub fn try_default_iter<I: 'static>() -> Option<I> {
         II<Vec2<Tok>>, II<Vec3<Tok>>, II<Vec4<Tok>>, II<Vec8<Tok>>, II<Vec16<Tok>>, II<Vec32<Tok>>, II<Vec64<Tok>>,
         II<Extent2<Tok>>, II<Extent3<Tok>>, II<Rgb<Tok>>, II<Rgba<Tok>>, II<Uv<Tok>>, II<Uvw<Tok>>,
         II<Vec2<Vec2<Tok>>>, II<Vec3<Vec3<Tok>>>, II<Vec4<Vec4<Tok>>>,
+    );
+    None
+}
+
+macro_rules! tok_iter_types {
+    ($it:ident, $c:ident => $body:expr) => {
+        for_iter_types!($it, $c => $body;
+            II<Vec2<Tok>>, II<Vec3<Tok>>, II<Vec4<Tok>>, II<Vec8<Tok>>, II<Vec16<Tok>>, II<Vec32<Tok>>, II<Vec64<Tok>>,
+            II<Extent2<Tok>>, II<Extent3<Tok>>, II<Rgb<Tok>>, II<Rgba<Tok>>, II<Uv<Tok>>, II<Uvw<Tok>>,
+        );
+    };
+}
+/// The remaining elements as shown by `Borrow<[Tok]>` (route 1) or `Deref<Target = [Tok]>` (route 2).
+pub fn try_view_iter<I: 'static>(it: &I, route: u32) -> Option<Vec<(u32, u32)>> {
+    if route == 1 {
+        tok_iter_types!(it, c => (&Wrap(c)).try_borrow_probe());
+    } else {
+        tok_iter_types!(it, c => (&Wrap(c)).try_deref_probe());
+    }
+    None
+}
+/// `it.as_mut()` as `&mut [Tok]` iff `AsMut<[Tok]>`: reverses the view in place, returns what it showed.
+pub fn try_asmut_iter<I: 'static>(it: &mut I) -> Option<Vec<(u32, u32)>> {
+    macro_rules! probe_types {
+        ($($T:ty,)+) => {
+            $(
+                if let Some(c) = (it as &mut dyn Any).downcast_mut::<$T>() {
+                    return (&WrapMut(std::cell::RefCell::new(c))).try_asmut_probe();
+                }
+            )+
+        };
+    }
+    probe_types!(
+        II<Vec2<Tok>>, II<Vec3<Tok>>, II<Vec4<Tok>>, II<Vec8<Tok>>, II<Vec16<Tok>>, II<Vec32<Tok>>, II<Vec64<Tok>>,
+        II<Extent2<Tok>>, II<Extent3<Tok>>, II<Rgb<Tok>>, II<Rgba<Tok>>, II<Uv<Tok>>, II<Uvw<Tok>>,
     );
     None
 }
